@@ -181,6 +181,7 @@ func (f *Frame) callWith(in ssa.Instruction, c *ssa.CallCommon, fv Val, args []V
 	// call-site clauses of the enclosing contract (asserts before the call)
 	f.callSiteClauses(in, c, args, o, "asserts", ordName, nil)
 	var res Val
+	wasInlined := false
 	if key == "" && !c.IsInvoke() && fv.SubOf != "" {
 		// call of a function value stored in a struct field: "field:<pkg>.<Type>.<field>"
 		key = "field:" + strings.TrimPrefix(fv.SubOf, modulePath+"/")
@@ -200,6 +201,7 @@ func (f *Frame) callWith(in ssa.Instruction, c *ssa.CallCommon, fv Val, args []V
 		res = f.applyContract(con, fn, c, args, o, resT, ordName, in)
 	case fn != nil && fn.Blocks != nil && f.canInline(fn):
 		vc.inlined[key]++
+		wasInlined = true
 		res = f.inline(fn, args, fv.Binds, o, in, con)
 	default:
 		if m := vc.eng.model(key); m != nil {
@@ -208,6 +210,7 @@ func (f *Frame) callWith(in ssa.Instruction, c *ssa.CallCommon, fv Val, args []V
 			res = f.unknownCall(key, c, args, o, resT)
 		}
 	}
+	_ = wasInlined
 	f.callSiteClauses(in, c, args, o, "assumes", ordName, &res)
 	return res
 }
